@@ -13,7 +13,7 @@ from __future__ import annotations
 
 import ast
 
-from .. import cfg, clifacts
+from .. import cfg, clifacts, inline
 from ..facts import call_name, norm
 from ..util import func_paths, is_call_named
 
@@ -21,12 +21,13 @@ ORCH = "src.orchestrator.core.Orchestrator"
 FINALIZING = {"lint_files": True, "lint_directory": True, "lint_files_parallel": True, "lint_directory_parallel": True, "lint_file": False}
 
 
-def _routes(f):
-    """target kind -> orchestrator method called under a test on is_file()/is_dir() (or on the files/dirs split)"""
+def _routes(repo, f):
+    """orchestrator method -> (call, executed in a loop?) over the flattened entry point (dispatch helpers inlined)"""
     out = {}
-    for n in ast.walk(f.node):
-        if isinstance(n, ast.Call) and isinstance(n.func, ast.Attribute) and n.func.attr in FINALIZING and "orchestrator" in ast.unparse(n.func.value):
-            out.setdefault(n.func.attr, n)
+    for n, in_loop in inline.flat_calls(repo, f):
+        if isinstance(n.func, ast.Attribute) and n.func.attr in FINALIZING and "orchestrator" in ast.unparse(n.func.value).lower():
+            prev = out.get(n.func.attr)
+            out[n.func.attr] = (n, in_loop or (prev[1] if prev else False))
     return out
 
 
@@ -36,7 +37,7 @@ def check(run, ctx):
                   decides="Linter.lint(file) and `thailint X file` report the same, cross-file rules included")
     lib = repo.func("src.api.Linter._lint_path")
     cli = repo.func("src.cli.utils.execute_linting_on_paths")
-    lr, cr = _routes(lib), _routes(cli)
+    lr, cr = _routes(repo, lib), _routes(repo, cli)
     run.require(lr and cr, "entry points no longer call orchestrator lint methods")
     # verify today's semantics of the orchestrator methods (which of them finalize)
     for m, fin in FINALIZING.items():
@@ -58,8 +59,7 @@ def check(run, ctx):
 
     A2 = run.rule("A2", "an invocation with several targets finalizes once over all of them", floor=1,
                   decides="duplicates shared between two targets of one command are found; nothing is reported twice")
-    fin_calls = [(n.lineno, m) for m, n in cr.items() if FINALIZING[m]]
-    in_loop = [m for m, n in cr.items() if any(isinstance(l, ast.For) and any(x is n for x in ast.walk(l)) for l in ast.walk(cli.node))]
+    in_loop = [m for m, (n, lp) in cr.items() if lp]
     groups = {("files" if "files" in m else "dir") for m in cr}
     if in_loop or len(groups) > 1:
         run.finding(A2, "execute_linting_on_paths", "per-group-finalize", f"file targets are finalized as one group and each directory target separately ({sorted(cr)}; in a loop: {sorted(in_loop)}): cross-file rules judge each group on its own (today masked/duplicated by the DRY state that is never reset, C08-S1)", cli.loc)
@@ -95,7 +95,10 @@ def check(run, ctx):
                 for k in n.keywords:
                     if k.arg == "config":
                         n_pass += 1
-                        if isinstance(k.value, (ast.Name, ast.Attribute)):
+                        v_ = k.value
+                        if isinstance(v_, ast.Call) and ((call_name(v_) in ("dict", "deepcopy") and len(v_.args) == 1 and not v_.keywords) or (call_name(v_) == "copy" and isinstance(v_.func, ast.Attribute) and not v_.args)):
+                            v_ = v_.args[0] if v_.args else v_.func.value  # a copy of the mapping is still the mapping
+                        if isinstance(v_, (ast.Name, ast.Attribute)):
                             run.ok(A3, f"{f.qual.replace('src.', '', 1)} Orchestrator(config=...)", f"config={norm(k.value)} passed through unchanged")
                         else:
                             run.finding(A3, f"{f.qual.replace('src.', '', 1)}", f"config-arg:{norm(k.value)}", f"Orchestrator(config={norm(k.value)}): the loaded configuration is transformed on the way in, so an explicitly given empty configuration (empty --config/config_file) becomes 'absent' and the project root's own file is auto-discovered instead - the CLI, which assigns orchestrator.config, keeps the empty one", f"{f.module.rel}:{n.lineno}")
